@@ -344,4 +344,43 @@ theorem roundNE_val_fin (s : Bool) (n d : Nat) (h : magOf n d < infMag) :
       split at hv <;> cases hv
   · exact ⟨m, e, hv⟩
 
+theorem truncNat_zero (e : Int) : truncNat 0 e = 0 := by unfold truncNat; split <;> simp
+
+/-- `math.IsInf(x, k)` by the decoded value -/
+theorem isInf_iff (x : F64) (k : Int) : F64.isInf x k = true ↔
+    (match x.val with | .inf neg => (0 ≤ k ∧ neg = false) ∨ (k ≤ 0 ∧ neg = true) | _ => False) := by
+  unfold F64.isInf
+  cases x.val <;> simp
+
+theorem ofNat_two64 : BitVec.ofNat 64 (2 ^ 64 - 0) = BitVec.ofNat 64 0 := by decide
+
+/-! ## shape-independent bridge tactic for float guards
+
+After a case distinction on the decoded value (`hv : x.val = …`, sign bit split), `f64_norm hv` turns every guard
+that occurs in float code (`x < 0`, `x != x`, `math.IsNaN`, `math.IsInf(x, ±1/0)`, `2^64 ≤ x`) and the conversion
+`uint64(x)` into statements about `m`, `e`; which guards are there and in which order does not matter. -/
+
+macro "f64_norm" hv:ident : tactic =>
+  `(tactic| simp only [lt_zero_iff, eq_self_false_iff, isNaN_iff, isInf_iff, le_C64_iff, F64.toUInt64, $hv:ident,
+      reduceCtorEq, Bool.true_eq_false, Bool.false_eq_true, true_and, and_true, false_and, and_false, or_false, false_or,
+      Int.reduceLE, Int.reduceNeg, Int.reduceLT, not_true_eq_false, not_false_eq_true, if_true, if_false, ne_eq,
+      Bool.not_eq_true] at *)
+
+macro "f64_leaf" : tactic =>
+  `(tactic| first
+    | rfl
+    | (exfalso; simp_all [truncNat_zero, ofNat_two64]; done)
+    | (exfalso; simp_all [truncNat_zero, ofNat_two64]; omega)
+    | (simp_all [truncNat_zero, ofNat_two64]; done)
+    | (simp_all [truncNat_zero, ofNat_two64]; omega))
+
+/-- case on the value of the float `x`, normalise the guards, split what is left, close the leaves -/
+macro "bridge_f64" x:ident : tactic =>
+  `(tactic| (
+    cases hv : F64.val $x with
+    | nan => (f64_norm hv)
+    | inf s => (cases s <;> f64_norm hv)
+    | fin s m e =>
+      (cases s <;> f64_norm hv) <;> (repeat' split) <;> f64_leaf))
+
 end Verif.Lemmas.F64
